@@ -874,6 +874,28 @@ theorem sticky_cookie_ignores_untrusted_forwarded_proto (tls : Bool) (xfp xfp' :
 theorem sticky_cookie_samesite_none_iff_secure (tls trusted : Bool) (xfp : List Bytes) (ma : Int) :
     (stickyAttrs tls trusted xfp ma).sameSiteNone = (stickyAttrs tls trusted xfp ma).secure := rfl
 
+/-! ## active health checks: when an upstream counts as healthy -/
+
+theorem ahStep_one_one (s : AhState) (r : Bool) : (ahStep 1 1 s r).healthy = r := by
+  unfold ahStep
+  cases r <;> cases hh : s.healthy <;> simp
+
+/-- FULL STATEMENT (fails for thresholds above 1, see `activeHealth_follows_consecutive_results_full_fails`):
+    the flag after every check is what the documented rule says (`ahSpecRun`: `fails` consecutive
+    failures → unhealthy, `passes` consecutive passes → healthy).
+    Proved for the default thresholds `passes` = `fails` = 1: the flag is the result of the last check. -/
+theorem activeHealth_follows_consecutive_results_partial : ∀ (rs : List Bool) (s : AhState) (t : AhSpec),
+    (ahRun 1 1 s rs).map (·.healthy) = ahSpecRun 1 1 t rs ∧ (ahRun 1 1 s rs).map (·.healthy) = rs
+  | [], _, _ => ⟨rfl, rfl⟩
+  | r :: rs, s, t => by
+    have h1 : (ahStep 1 1 s r).healthy = r := ahStep_one_one s r
+    have h2 : (ahSpecStep 1 1 t r).healthy = r := by
+      unfold ahSpecStep
+      cases r <;> simp
+    obtain ⟨ih1, ih2⟩ := activeHealth_follows_consecutive_results_partial rs (ahStep 1 1 s r) (ahSpecStep 1 1 t r)
+    simp only [ahRun, ahSpecRun, List.map_cons, h1, h2]
+    exact ⟨by rw [ih1], by rw [ih2]⟩
+
 /-! ## the draw list: random and least_conn use at most one draw per upstream -/
 
 /-- the model never runs out of draws when given one draw per upstream -/
@@ -1104,5 +1126,12 @@ example : (attempt { exCfg with ups := [⟨7, 0, 1⟩, ⟨9, 0, 2⟩, ⟨11, 0, 
 example : stickyAttrs false false [str "https"] 0 = ⟨false, false, 0⟩ ∧ stickyAttrs true false [] 90000000000 = ⟨true, true, 90⟩ ∧
     stickyAttrs false true [str "http", str "https"] 0 = ⟨true, true, 0⟩ ∧
     stickyAttrs false true [str "https", str "http"] 500000000 = ⟨false, false, 0⟩ := by decide
+
+-- active health checks with the default thresholds: the flag is the last result
+example : (ahRun 1 1 ahInit [false, true, true, false]).map (·.healthy) = [false, true, true, false] ∧
+    ahSpecRun 1 1 ⟨true, true, 0⟩ [false, true, true, false] = [false, true, true, false] := by decide
+-- thresholds 3: three failures in a row mark it unhealthy, three passes in a row healthy again (here code and rule agree)
+example : (ahRun 3 3 ahInit [false, false, false, true, true, true]).map (·.healthy) = [true, true, false, false, false, true] ∧
+    ahSpecRun 3 3 ⟨true, true, 0⟩ [false, false, false, true, true, true] = [true, true, false, false, false, true] := by decide
 
 end CaddyModel.C08
